@@ -496,3 +496,252 @@ m(
     "host name resolved through __import__('socket') at run time",
     ("rp2_main.py", "        LOGGER.info(\"Generation Language: %s\", args.generation_language)", "        try:\n            __import__(\"socket\").gethostbyname(\"localhost\")\n        except Exception:  # pylint: disable=broad-except\n            pass\n        LOGGER.info(\"Generation Language: %s\", args.generation_language)"),
 )
+
+# ---------------------------------------------------------------- C13
+m(
+    "c13_out_columns_swapped",
+    ["C13"],
+    "Out-Flow table: crypto-out and crypto-fee columns swapped",
+    (
+        "plugin/report/rp2_full_report.py",
+        "self._fill_cell(sheet, row_index, 7, transaction.crypto_out_no_fee, visual_style=visual_style, data_style=\"crypto\")\n            self._fill_cell(sheet, row_index, 8, transaction.crypto_fee, visual_style=visual_style, data_style=\"crypto\")",
+        "self._fill_cell(sheet, row_index, 8, transaction.crypto_out_no_fee, visual_style=visual_style, data_style=\"crypto\")\n            self._fill_cell(sheet, row_index, 7, transaction.crypto_fee, visual_style=visual_style, data_style=\"crypto\")",
+    ),
+)
+m(
+    "c13_summary_basis_shows_proceeds",
+    ["C13"],
+    "per-asset Gain / Loss Summary: cost-basis column filled with the fiat taxable total",
+    (
+        "plugin/report/rp2_full_report.py",
+        "                7,\n                yearly_gain_loss.fiat_cost_basis,",
+        "                7,\n                yearly_gain_loss.fiat_amount,",
+    ),
+)
+m(
+    "c13_holder_total_from_acquired",
+    ["C13"],
+    "per-holder 'Total' rows accumulate the acquired balance instead of the final balance",
+    ("plugin/report/rp2_full_report.py", "value += balance.final_balance", "value += balance.acquired_balance"),
+)
+m(
+    "c13_detail_lot_label_uses_event_total",
+    ["C13"],
+    "acquired-lot label 'a of b' printed with the taxable event's amount as b",
+    (
+        "plugin/report/rp2_full_report.py",
+        "                    f\"{gain_loss.crypto_amount:.8f} of \"\n                    f\"{gain_loss.acquired_lot.crypto_balance_change:.8f} \"\n                    f\"{asset}\"\n                )\n                self._fill_cell(\n                    sheet,\n                    row_index,\n                    12,",
+        "                    f\"{gain_loss.crypto_amount:.8f} of \"\n                    f\"{gain_loss.taxable_event.crypto_balance_change:.8f} \"\n                    f\"{asset}\"\n                )\n                self._fill_cell(\n                    sheet,\n                    row_index,\n                    12,",
+    ),
+)
+m(
+    "c13_sheet_one_row_short",
+    ["C13", "C16"],
+    "In-Out sheet sized without the intra-transaction count (rows beyond the sheet)",
+    (
+        "plugin/report/rp2_full_report.py",
+        "return self.MIN_ROWS + computed_data.in_transaction_set.count + computed_data.out_transaction_set.count + computed_data.intra_transaction_set.count",
+        "return 8 + computed_data.in_transaction_set.count + computed_data.out_transaction_set.count",
+    ),
+)
+m(
+    "c13_intra_running_sum_of_sent",
+    ["C13"],
+    "Intra-Flow fee running sum column shows the transfer's own fee instead of the running sum",
+    (
+        "plugin/report/rp2_full_report.py",
+        "self._fill_cell(sheet, row_index, 11, computed_data.get_crypto_intra_fee_running_sum(transaction), data_style=\"crypto\", visual_style=visual_style)",
+        "self._fill_cell(sheet, row_index, 11, transaction.crypto_fee, data_style=\"crypto\", visual_style=visual_style)",
+    ),
+)
+
+# ---------------------------------------------------------------- C19
+m(
+    "c19_out_rows_off_by_one",
+    ["C19"],
+    "row recorded for out-transactions is one too far (links land on the next row)",
+    (
+        "plugin/report/rp2_full_report.py",
+        "            self._fill_cell(sheet, row_index, 15, transaction.notes, visual_style=\"transparent\")\n\n            self.__in_out_sheet_transaction_2_row[transaction] = row_index + 1\n\n            row_index += 1\n\n        return row_index\n\n    def __generate_intra_table",
+        "            self._fill_cell(sheet, row_index, 15, transaction.notes, visual_style=\"transparent\")\n\n            self.__in_out_sheet_transaction_2_row[transaction] = row_index + 2\n\n            row_index += 1\n\n        return row_index\n\n    def __generate_intra_table",
+    ),
+)
+m(
+    "c19_f6_reintroduced",
+    ["C19"],
+    "pre-fix F6: transaction->row map not cleared per asset",
+    ("plugin/report/rp2_full_report.py", "        self.__in_out_sheet_transaction_2_row.clear()\n", ""),
+)
+m(
+    "c19_summary_year_row_last",
+    ["C19"],
+    "Summary links point at the last detail row of the year instead of the first",
+    (
+        "plugin/report/rp2_full_report.py",
+        "            if gain_loss.taxable_event.timestamp.year != year:\n                self.__tax_sheet_year_2_row",
+        "            if True:\n                self.__tax_sheet_year_2_row",
+    ),
+)
+m(
+    "c19_link_sheet_of_first_asset",
+    ["C19"],
+    "hyperlinks of the lot columns name the In-Out sheet of the taxable event's asset captured at class level (first asset)",
+    (
+        "plugin/report/rp2_full_report.py",
+        "    @staticmethod\n    def get_in_out_sheet_name(asset: str) -> str:\n        return _(\"{} In-Out\").format(asset)",
+        "    _first_asset = None\n\n    @staticmethod\n    def get_in_out_sheet_name(asset: str) -> str:\n        if Generator._first_asset is None:\n            Generator._first_asset = asset\n        return _(\"{} In-Out\").format(Generator._first_asset)",
+    ),
+)
+
+# ---------------------------------------------------------------- C14
+m(
+    "c14_row_indexes_reset_per_asset",
+    ["C14"],
+    "tax_report_us: next-row counters copied per asset (a second asset overwrites the first one's rows)",
+    (
+        "plugin/report/us/tax_report_us.py",
+        "self.__generate(output_file, asset, computed_data.gain_loss_set, row_indexes)",
+        "self.__generate(output_file, asset, computed_data.gain_loss_set, row_indexes if asset == min(asset_to_computed_data) else dict(row_indexes))",
+    ),
+)
+m(
+    "c14_lost_on_capital_gains_sheet",
+    ["C14"],
+    "tax_report_us: LOST fractions listed on the Capital Gains sheet",
+    (
+        "plugin/report/us/tax_report_us.py",
+        "        TransactionType.LOST,\n        TransactionType.MOVE,\n    ),",
+        "        TransactionType.MOVE,\n    ),",
+    ),
+    (
+        "plugin/report/us/tax_report_us.py",
+        "    SheetNames.CAPITAL_GAINS.value: (TransactionType.SELL,),",
+        "    SheetNames.CAPITAL_GAINS.value: (TransactionType.SELL, TransactionType.LOST),",
+    ),
+)
+m(
+    "c14_single_row_sheet_removed",
+    ["C14"],
+    "tax_report_us: a sheet holding exactly one row is treated as empty and removed",
+    (
+        "plugin/report/us/tax_report_us.py",
+        "row_indexes[sheet_name] == Generator.HEADER_ROWS:",
+        "row_indexes[sheet_name] <= Generator.HEADER_ROWS + 1:",
+    ),
+)
+m(
+    "c14_ie_proceeds_of_whole_event",
+    ["C14"],
+    "tax_report_ie: proceeds column shows the whole event's fiat amount instead of the fraction's",
+    (
+        "plugin/report/ie/tax_report_ie.py",
+        "self._fill_cell(sheet, row_index, 4, gain_loss.taxable_event_fiat_amount_with_fee_fraction,",
+        "self._fill_cell(sheet, row_index, 4, gain_loss.taxable_event.fiat_taxable_amount,",
+    ),
+)
+
+# ---------------------------------------------------------------- C15
+m(
+    "c15_zero_balance_rows_listed",
+    ["C15"],
+    "open_positions: accounts with a zero final balance are listed (>= instead of >)",
+    ("plugin/report/open_positions.py", "if balance_set.final_balance > ZERO:", "if balance_set.final_balance >= ZERO:"),
+)
+m(
+    "c15_unsold_cost_without_fee",
+    ["C15"],
+    "open_positions: cost of unsold lots taken from fiat_in_no_fee (acquisition fee dropped)",
+    (
+        "plugin/report/open_positions.py",
+        "transaction_cost_basis: RP2Decimal = in_transaction.fiat_in_with_fee * (RP2Decimal(\"1\") - sold_percent)",
+        "transaction_cost_basis: RP2Decimal = in_transaction.fiat_in_no_fee * (RP2Decimal(\"1\") - sold_percent)",
+    ),
+)
+m(
+    "c15_partial_lots_counted_in_full",
+    ["C15"],
+    "open_positions: a partially sold lot is counted with its full cost",
+    (
+        "plugin/report/open_positions.py",
+        "transaction_cost_basis: RP2Decimal = in_transaction.fiat_in_with_fee * (RP2Decimal(\"1\") - sold_percent)",
+        "transaction_cost_basis: RP2Decimal = in_transaction.fiat_in_with_fee if sold_percent < RP2Decimal(\"1\") else ZERO",
+    ),
+)
+m(
+    "c15_weight_over_asset_cost",
+    ["C15"],
+    "open_positions: Asset sheet weight divided by the asset's cost instead of the portfolio's",
+    (
+        "plugin/report/open_positions.py",
+        "self._fill_cell(asset_sheet, asset_row_index, 5, holder_cost_basis / total_cost_basis, data_style=\"percent\")",
+        "self._fill_cell(asset_sheet, asset_row_index, 5, holder_cost_basis / asset_cost_basis, data_style=\"percent\")",
+    ),
+)
+m(
+    "c15_exchange_balance_first_holder_only",
+    ["C15"],
+    "open_positions: per-exchange balances keyed by exchange only (second holder on the same exchange lost)",
+    (
+        "plugin/report/open_positions.py",
+        "if balance_set.exchange not in asset_crypto_balance_holder_exchange[asset][balance_set.holder]:",
+        "if not any(balance_set.exchange in v for v in asset_crypto_balance_holder_exchange[asset].values()):",
+    ),
+)
+
+# ---------------------------------------------------------------- C20
+m(
+    "c20_f8_first_seen_order",
+    ["C20"],
+    "pre-fix F8 (part): year sheets generated in first-seen order",
+    (
+        "plugin/report/jp/tax_report_jp.py",
+        "for year, transaction_set in sorted(years_2_transaction_sets.items()):",
+        "for year, transaction_set in years_2_transaction_sets.items():",
+    ),
+)
+m(
+    "c20_opening_balance_year_minus_one",
+    ["C20"],
+    "pre-fix F8 (part): opening balance refers to sheet year-1",
+    (
+        "plugin/report/jp/tax_report_jp.py",
+        "previous_year_sheet_name: str = self.get_tax_sheet_name(asset, previous_year)",
+        "previous_year_sheet_name: str = self.get_tax_sheet_name(asset, year - 1)",
+    ),
+)
+m(
+    "c20_transactions_not_time_sorted",
+    ["C20"],
+    "year sheet rows left in table order (IN, OUT, INTRA) instead of time order",
+    (
+        "plugin/report/jp/tax_report_jp.py",
+        "transaction_list=sorted(transaction_set, key=lambda x: x.timestamp),",
+        "transaction_list=transaction_set,",
+    ),
+)
+m(
+    "c20_out_amount_without_fee",
+    ["C20"],
+    "sold amount column shows crypto_out_no_fee (fee left out of the units sold)",
+    (
+        "plugin/report/jp/tax_report_jp.py",
+        "sales_crypto_amount=transaction.crypto_out_with_fee,",
+        "sales_crypto_amount=transaction.crypto_out_no_fee,",
+    ),
+)
+m(
+    "c20_summary_points_to_wrong_row",
+    ["C20"],
+    "summary sheet closing-balance formula points one row too high",
+    (
+        "plugin/report/jp/tax_report_jp.py",
+        "self._fill_cell(year_summary_sheet, self.__year_row_offset[year], 4, f\"='{self.get_tax_sheet_name(asset, year)}'.I{row_index+9}\", apply_style=False)",
+        "self._fill_cell(year_summary_sheet, self.__year_row_offset[year], 4, f\"='{self.get_tax_sheet_name(asset, year)}'.I{row_index+8}\", apply_style=False)",
+    ),
+)
+m(
+    "c20_return_offset_off_by_one",
+    ["C20"],
+    "offset handed to the next year is one row too low (next year's opening balance reads the wrong cells)",
+    ("plugin/report/jp/tax_report_jp.py", "        return row_index + 9\n", "        return row_index + 8\n"),
+)
